@@ -215,12 +215,22 @@ def main(argv):
                         seen.add(l); arg_lines.append(l)
             del seen
         changed = source_changed()
-        if changed and tier == 'quick':
-            # the source differs from the tree the model was validated against: triple the quick budget
-            # (six-fold when a source-tie theorem of this property is broken or could not be established)
-            for extra in ((1000, 2000, 3000, 4000, 5000) if (tie_broken or tie_missing) else (1000, 2000)):
+        if tier == 'quick':
+            # the quick tier draws its random part from three generator streams (a few seconds each); when the source differs from
+            # the tree the model was validated against, from six; when a source-tie theorem of this property is broken or could
+            # not be established, from nine. Exhaustive lines repeat across streams and are executed once.
+            streams = (1000, 2000)
+            if changed:
+                streams += (3000, 4000, 5000)
+            if tie_broken or tie_missing:
+                streams += (6000, 7000, 8000)
+            seen = set(arg_lines)
+            for extra in streams:
                 rng_x = random.Random('%s/%d/%s' % (pid, seed + extra, tier))
-                arg_lines += list(mod.generate(tier, rng_x))
+                for l in mod.generate(tier, rng_x):
+                    if l not in seen:
+                        seen.add(l); arg_lines.append(l)
+            del seen
 
     full = exec_lines(mod, arg_lines, procs)
     verdicts = judge(full)
